@@ -173,6 +173,33 @@ class C07(Check):
 
     def stage_for(self, ctx, conf):
         st_ = ctx.shared["stages"].get(conf)
+        if st_ is None and conf.startswith("re:"):
+            # the SAME process first runs under another configuration (and starts keyed operations there), is finalised, and is initialised again
+            # under this one: whatever the library keeps between two initialisations must not carry the old mechanism list over
+            frm, to = conf[3:].split(">")
+            st_ = Stage(ctx.env, ctx.shared["tpl"], reuse=True, mechanisms=CONFIGS[frm])
+            w = st_.fresh()
+            slot = ctx.shared["tpl"].tokens[0].slot
+            s = w.C_OpenSession(slot=slot, flags=RW)["h"]
+            for k_, m_, fn_ in (("aes", "CKM_AES_ECB", "C_EncryptInit"), ("aes", "CKM_AES_CBC", "C_DecryptInit"), ("generic", "CKM_SHA256_HMAC", "C_SignInit"),
+                                ("generic", "CKM_SHA512_HMAC", "C_VerifyInit"), ("des3", "CKM_DES3_CBC", "C_EncryptInit")):
+                r = w.C_CreateObject(s=s, tpl=key_template(k_, "CKA_ENCRYPT", True, None) + T(("CKA_DECRYPT", True), ("CKA_SIGN", True), ("CKA_VERIFY", True)))
+                if r["rv"] == 0:
+                    mech = {"m": K.C[m_]}
+                    p_ = mech_params(m_, "encrypt")
+                    if p_ is not None:
+                        mech["p"] = p_
+                    w.call(fn_, s=s, mech=mech, key=r["h"])
+            w.C_CloseSession(s=s)
+            w.C_Finalize()
+            st_.sb.write_conf(mechanisms=CONFIGS[to])
+            if w.C_Initialize()["rv"] != 0:
+                raise RuntimeError("re-initialisation under configuration %s failed" % to)
+            st_.initialised = True
+            ctx.shared["stages"][conf] = st_
+            st_.mechlist = set(w.C_GetMechanismList(slot=slot)["mechs"])
+            ctx.label("reconfigured_processes")
+            return st_
         if st_ is None:
             st_ = Stage(ctx.env, ctx.shared["tpl"], reuse=True, mechanisms=CONFIGS[conf])
             st_.fresh()
@@ -203,6 +230,13 @@ class C07(Check):
                 cells.append(["nokey", conf, m])
         for conf in CONFIGS:
             cells.append(["mechlist", conf])
+        # configuration changed between two initialisations of ONE process: every mechanism / operation with its natural keys, flag true
+        for rc in ("re:ALL>pos_S", "re:ALL>neg_S", "re:pos_T>pos_S", "re:neg_S>neg_T"):
+            cells.append(["mechlist", rc])
+            for op in OPS:
+                for m in sorted(m_ for m_ in TABLE if op in TABLE[m_]):
+                    for k in sorted(TABLE[m][op]):
+                        cells.append(["cell", rc, op, k, True, m, "none"])
         for who in ("rsa", "ec"):
             for how in ("sign_single", "sign_multi", "decrypt"):
                 for login in ("none", "wrong", "right"):
@@ -270,7 +304,7 @@ class C07(Check):
         conf = cell[1]
         full = self.stage_for(ctx, "ALL").mechlist
         got = self.stage_for(ctx, conf).mechlist
-        text = CONFIGS[conf]
+        text = CONFIGS[conf.split(">")[-1]]
         if text == "ALL":
             want = set(full)
         elif text.startswith("-"):
